@@ -154,6 +154,20 @@ class ResolveSpec(Spec):
                 fid = what.get("finding") if isinstance(what, dict) else None
                 text = what["what"] if isinstance(what, dict) else what
                 res["oracle_failures"].append({"id": cid, "what": text, "finding": fid, "case": gen.strip_struct(case)})
+            ex = case.get("expect")
+            if ex:
+                # a verdict that follows from the property text alone (small planted cases)
+                nodes_ = o["tables"]["nodes"]
+                if ex.get("fails"):
+                    failing = {nodes_[i].split(":")[0] for i in rep.failures()}
+                    if rep.kind == "success" or (rep.kind == "failvet" and ex["fails"] not in failing):
+                        res["oracle_failures"].append({"id": cid, "what": f"{ex['fails']} is not reported as failing (verdict {rep.kind}) although {ex['why']}",
+                                                       "finding": None, "case": gen.strip_struct(case)})
+                if ex.get("conflict"):
+                    hit = {nodes_[i].split(":")[0] for i in rep.conflicts()} if rep.kind == "violation" else set()
+                    if ex["conflict"] not in hit:
+                        res["oracle_failures"].append({"id": cid, "what": f"no violation conflict is reported for {ex['conflict']} (verdict {rep.kind}) although {ex['why']}",
+                                                       "finding": None, "case": gen.strip_struct(case)})
             if not cid.startswith("finding-"):
                 for text in O.fidelity(case, o)[:2]:
                     res["oracle_failures"].append({"id": cid, "what": "input fidelity: " + text, "finding": None, "case": gen.strip_struct(case)})
@@ -212,6 +226,9 @@ class C01(ResolveSpec):
             "non-trivial = the verdict is Success or at least one (crate, criterion) pair is certified; distinct = distinct projection")
     projection_doc = "conclusion kind; requirement vector; for every third-party node and criterion whether the search succeeded"
     assumptions = ["criteria indices in the generated stores are defined (validated store); see C15 for the rest"]
+
+    def extra_cases(self):
+        return gen.gen_expect_cases(None, "builtin-mapped-to-nothing")
 
     def gen_cases(self, rng, n):
         cases = []
@@ -407,7 +424,7 @@ class C06(ResolveSpec):
                 {"user-id": 1, "start": "2022-01-01", "end": end, "criteria": ["safe-to-run"], "notes": "far ahead"})
             c["expect_refused"] = f"its own wildcard audit for {crate} ends on {end}, more than a year after today"
             out.append(gen.finalize(c))
-        return out
+        return out + gen.gen_expect_cases(None, "wildcard-window-gap")
 
     def gen_cases(self, rng, n):
         cases = []
@@ -503,6 +520,9 @@ class C12(ResolveSpec):
                 gen.boost_dense_success(rng, c)
             if i % 4 == 2:
                 gen.boost_grant_vs_exemption(rng, c)
+            if i % 8 == 7:
+                # certified by the SECOND of two trusted entries of its publisher, and exempted on top: fully audited all the same
+                gen.boost_two_trusted_exempted(rng, c)
             cases.append(c)
         return cases
 
@@ -835,6 +855,9 @@ class C04(ResolveSpec):
             "version of an in-graph crate")
     projection_doc = "conclusion kind; the list of violation conflicts per package (kind, sources, indices)"
     gen_kwargs = {"p_violation": 0.5}
+
+    def extra_cases(self):
+        return gen.gen_expect_cases(None, "peer-violation-mixed")
 
     def gen_cases(self, rng, n):
         cases = []
@@ -2557,6 +2580,7 @@ class HistorySpec(Spec):
                 [gen.scenario_violation_before_audit(f"vb{k}", k) for k in range(2)] +
                 [gen.scenario_certify_collapse(f"cc{k}", k) for k in range(3)] +
                 [gen.scenario_unmapped_before_needed(f"um{k}", k) for k in range(2)] +
+                [gen.scenario_old_store_version(f"ov{k}x", k) for k in range(2)] +
                 [gen.scenario_shared_exemption_two_needs(f"sx{k}", k) for k in range(2)] +
                 [gen.scenario_lapsed_peer_wildcard(f"lw{k}", k) for k in range(2)] +
                 [gen.scenario_overlap_redundant_exemption(f"ov{k}", k) for k in range(3)] +
@@ -2606,7 +2630,7 @@ class _C17Hist(HistorySpec):
     compare_user_commands = True
 
     def gen_cases(self, rng, n):
-        return [gen.scenario_certify_guess(f"cg{k}", k) for k in range(4)] + [gen.gen_history(rng, f"h{i}") for i in range(n)]
+        return [gen.scenario_certify_guess(f"cg{k}", k) for k in range(6)] + [gen.gen_history(rng, f"h{i}") for i in range(n)]
 
     def step_nontrivial(self, st):
         return st.cls == "certify" and "--criteria" not in st.args
